@@ -141,42 +141,51 @@ class Ctx:
             else:
                 self.bad("C17.R5", "hand-off", "the drawing backend networkx.draw_networkx is not called on the way from draw()")
             return
-        if len(calls) > 1:
-            self.unsure("C17.R5", "hand-off", f"{len(calls)} calls of draw_networkx: hand-off shape not recognised")
-            return
-        call = calls[0]
-        star = [k for k in call.keywords if k.arg is None]
-        named = [k for k in call.keywords if k.arg is not None]
         cfg = cfg_of(M.V)
         problems = []
         unsure_fw = None
-        garg = M.resolve(call.args[0]) if len(call.args) == 1 else None
-        if garg is None:
-            unsure_fw = "draw_networkx is not called with the graph as its only positional argument"
-        elif not self._is_graph(garg) and not (isinstance(garg, ast.Attribute) and isinstance(garg.value, ast.Name) and garg.value.id == M.selfname):
-            unsure_fw = f"the first argument `{norm(call.args[0], 40)}` is not recognised as the wrapped networkx graph"
-        if not star:
-            problems.append("the caller's options are not forwarded (no **kwargs in the backend call)")
-        elif len(star) != 1 or not M.is_options(star[0].value):
-            unsure_fw = unsure_fw or f"`**{norm(star[0].value, 40)}` is not recognised as the caller's options"
-        forced = [k.arg for k in named if k.arg not in ("labels", "pos")]
-        if forced:
-            problems.append(f"options {forced} are fixed by draw() itself")
-        if not cfg.dominates(M.stmt_of(call), EXIT):
+        named_all: list[tuple[ast.Call, ast.keyword]] = []
+        graphs = set()
+        for call in calls:
+            star = [k for k in call.keywords if k.arg is None]
+            named = [k for k in call.keywords if k.arg is not None]
+            named_all += [(call, k) for k in named]
+            garg = M.resolve(call.args[0]) if len(call.args) == 1 else None
+            if garg is None:
+                unsure_fw = unsure_fw or "draw_networkx is not called with the graph as its only positional argument"
+            else:
+                graphs.add(norm(garg))
+                if not self._is_graph(garg) and not (isinstance(garg, ast.Attribute) and isinstance(garg.value, ast.Name) and garg.value.id == M.selfname):
+                    unsure_fw = unsure_fw or f"the first argument `{norm(call.args[0], 40)}` is not recognised as the wrapped networkx graph"
+            if not star:
+                problems.append("the caller's options are not forwarded (no **kwargs in the backend call)")
+            elif len(star) != 1 or not M.is_options(star[0].value):
+                unsure_fw = unsure_fw or f"`**{norm(star[0].value, 40)}` is not recognised as the caller's options"
+            forced = [k.arg for k in named if k.arg not in ("labels", "pos")]
+            if forced:
+                problems.append(f"options {forced} are fixed by draw() itself")
+        if len(graphs) > 1:
+            unsure_fw = unsure_fw or f"draw_networkx is called with different graphs {sorted(graphs)}"
+        elif graphs and M.G is None:
+            M.G = next(iter(graphs))
+        call = calls[0]
+        if cfg.paths_avoiding("<ENTRY>", EXIT, {M.stmt_of(c) for c in calls}):
             problems.append("draw_networkx is not reached on every path that returns normally")
+        if len(calls) > 1 and any(cfg.paths_avoiding(M.stmt_of(c1), M.stmt_of(c2), set()) for c1 in calls for c2 in calls if c1 is not c2):
+            unsure_fw = unsure_fw or "the backend can be called more than once on one path"
         if problems:
-            self.bad("C17.R5", "hand-off", "; ".join(problems), call)
+            self.bad("C17.R5", "hand-off", "; ".join(dict.fromkeys(problems)), call)
         elif unsure_fw:
             self.unsure("C17.R5", "hand-off", unsure_fw, call)
         else:
-            self.ok("C17.R5", "hand-off", f"draw_networkx({M.G}, **{M.kw}) on every path", call)
+            self.ok("C17.R5", "hand-off", f"draw_networkx({M.G}, **{M.kw}) on every path" + (f" ({len(calls)} exclusive calls)" if len(calls) > 1 else ""), call)
         # ---- what draw() removes from / adds to the options
         consumed: dict[str, list[ast.AST]] = {}
         stored: dict[str, list[tuple[ast.AST, ast.expr | None]]] = {}
         odd: list[str] = []
-        for k in named:
+        for c_, k in named_all:
             if k.arg in ("labels", "pos"):
-                odd.append(f"`{k.arg}=` is passed as an explicit keyword of draw_networkx")
+                stored.setdefault(k.arg, []).append((c_, k.value))  # an explicit keyword of the backend call: set exactly when that call is made
         if len([b for b in M.binds.get(M.kw, []) if not M._merge_update(b)]) > 1:
             odd.append(f"`{M.kw}` is re-bound")
         for name, bs in M.binds.items():
@@ -222,6 +231,19 @@ class Ctx:
                 else:
                     st = M.stmt_of(n)
                     stored.setdefault(k, []).append((n, st.value if isinstance(st, (ast.Assign, ast.AnnAssign)) and not isinstance(getattr(st, "targets", [None])[0], ast.Tuple) else None))
+        # `labels = None ... if given: labels = <...>` + `labels=labels`: the option is effectively set where the local gets a value
+        for key_, items in list(stored.items()):
+            new_items = []
+            for node_, val in items:
+                if isinstance(val, ast.Name):
+                    bs = M.binds.get(val.id, [])
+                    nones = [b for b in bs if b.kind == "assign" and isinstance(b.value, ast.Constant) and b.value.value is None]
+                    rest = [b for b in bs if b not in nones]
+                    if nones and rest and all(b.kind == "assign" and b.value is not None for b in rest):
+                        new_items += [(b.stmt, b.value) for b in rest]
+                        continue
+                new_items.append((node_, val))
+            stored[key_] = new_items
         extra_c = sorted(set(consumed) - {"spacing", "aliases"})
         extra_s = sorted(set(stored) - {"pos", "labels"})
         missing_c = sorted({"spacing", "aliases"} - set(consumed))
